@@ -159,7 +159,14 @@ impl Story {
 
     fn pop_choice_string_and_tags(&mut self, tags: &mut Vec<String>) -> Result<String, StoryError> {
         let obj = self.get_state_mut().pop_evaluation_stack()?;
-        let choice_only_str_val = Value::get_value::<&StringValue>(obj.as_ref()).unwrap();
+        // Not a string when an earlier fault (or a host call that consumed an
+        // operand) has left something else on top of the stack.
+        let choice_only_str_val =
+            Value::get_value::<&StringValue>(obj.as_ref()).ok_or_else(|| {
+                StoryError::InvalidStoryState(
+                    "Expected the text of a choice on the evaluation stack.".to_owned(),
+                )
+            })?;
 
         while !self.get_state().evaluation_stack.is_empty()
             && self
